@@ -281,7 +281,7 @@ static const void *g_acc_visitor;
 static long g_snap_long; static unsigned long g_snap_ulong; static double g_snap_double; static _Bool g_snap_bool;
 static float g_snap_float; static int g_snap_int; static unsigned g_snap_uint; static short g_snap_short;
 static unsigned short g_snap_ushort; static signed char g_snap_schar; static unsigned char g_snap_uchar;
-static struct JsonString g_snap_js; static struct SerializedValue_char_p g_snap_raw; static char *g_snap_cstr;
+static struct JsonString g_snap_js; static struct SerializedValue_constchar_p g_snap_raw; static char *g_snap_cstr;
 static struct JsonArrayConst g_snap_arr; static struct JsonObjectConst g_snap_obj; static struct JsonVariantConst g_snap_var;
 static struct VariantData g_vd[2];
 static struct ResourceManager g_rm[2];
@@ -308,7 +308,7 @@ ACCEPT_STUB(accept_Comparer_float, Comparer_float_void, g_snap_float = visit->rh
 ACCEPT_STUB(accept_Comparer_double, Comparer_double_void, g_snap_double = visit->rhs)
 ACCEPT_STUB(accept_Comparer__Bool, Comparer__Bool_void, g_snap_bool = visit->rhs)
 ACCEPT_STUB(accept_Comparer_JsonString, Comparer_JsonString_void, g_snap_js = visit->rhs)
-ACCEPT_STUB(accept_Comparer_constchar_p, Comparer_char_p_void, g_snap_cstr = visit->rhs)
+ACCEPT_STUB(accept_Comparer_constchar_p, Comparer_constchar_p_void, g_snap_cstr = visit->rhs)
 ACCEPT_STUB(accept_Comparer_SerializedValue_constchar_p, Comparer_SerializedValue_constchar_p_void, g_snap_raw = visit->rhs)
 ACCEPT_STUB(accept_Comparer_JsonVariantConst, Comparer_JsonVariantConst_void, g_snap_var = visit->_b_VariantComparer.rhs)
 ACCEPT_STUB(accept_RawComparer, RawComparer, g_snap_raw = visit->rhs_)
@@ -354,7 +354,7 @@ void h_comparer_numeric_visit(void) { NUMERIC_MATRIX(CHK_P, CHK_S) }
 
 /* a number against a non-number (string, raw, array, object, null): ComparerBase default => DIFFER ("equals only ...") */
 #define CHK_DEFAULTS(T) do { struct CMP_STRUCT(T) c; CMP_CTOR(T)(&c, IN_##T()); \
-    struct JsonString js; memset(&js, 0, sizeof js); struct SerializedValue_char_p raw; memset(&raw, 0, sizeof raw); \
+    struct JsonString js; memset(&js, 0, sizeof js); struct SerializedValue_constchar_p raw; memset(&raw, 0, sizeof raw); \
     struct JsonArrayConst arr; memset(&arr, 0, sizeof arr); struct JsonObjectConst obj; memset(&obj, 0, sizeof obj); void *nul = (void *)0; \
     CHECK(CMP_VISIT_X(T, JsonString)(&c, &js) == DIFFER_OR_CANARY, "number vs string: DIFFER"); \
     CHECK(CMP_VISIT_X(T, SerializedValue_constchar_p)(&c, &raw) == DIFFER, "number vs raw: DIFFER"); \
@@ -375,7 +375,7 @@ void h_comparer_defaults(void) {
 void h_null_comparer(void) {
   struct NullComparer nc; memset(&nc, 0, sizeof nc);
   struct JsonVariantVisitor_CompareResult base; memset(&base, 0, sizeof base);
-  struct JsonString js; memset(&js, 0, sizeof js); struct SerializedValue_char_p raw; memset(&raw, 0, sizeof raw);
+  struct JsonString js; memset(&js, 0, sizeof js); struct SerializedValue_constchar_p raw; memset(&raw, 0, sizeof raw);
   struct JsonArrayConst arr; memset(&arr, 0, sizeof arr); struct JsonObjectConst obj; memset(&obj, 0, sizeof obj); void *nul = (void *)0;
   long l = in_i64(); unsigned long ul = in_u64(); double d = in_f64(); float f = in_f32(); _Bool b = in_bool();
   COVER(1);
@@ -438,7 +438,7 @@ void h_variant_comparer_visit(void) {
   { VC_BEGIN _Bool v = in_bool(); r = VariantComparer__visit___Bool(&vc, v); VC_END("VariantComparer::visit(bool)", g_snap_bool == v) }
   { VC_BEGIN struct JsonString v; v.data_ = (char *)&g_vd[0]; v.size_ = in_size(); v.ownership_ = in_bool(); r = VariantComparer__visit__JsonString(&vc, v);
     VC_END("VariantComparer::visit(JsonString)", g_snap_js.data_ == v.data_ && g_snap_js.size_ == v.size_ && g_snap_js.ownership_ == v.ownership_) }
-  { VC_BEGIN struct SerializedValue_char_p v; v.data_ = (char *)&g_vd[1]; v.size_ = in_size(); r = VariantComparer__visit__SerializedValue_char_p(&vc, v);
+  { VC_BEGIN struct SerializedValue_constchar_p v; v.data_ = (char *)&g_vd[1]; v.size_ = in_size(); r = VariantComparer__visit__SerializedValue_constchar_p(&vc, v);
     VC_END("VariantComparer::visit(RawString)", g_snap_raw.data_ == v.data_ && g_snap_raw.size_ == v.size_) }
   { VC_BEGIN struct JsonArrayConst v; v.data_ = (struct ArrayData *)&g_vd[0]; v.resources_ = &g_rm[1]; r = VariantComparer__visit__JsonArrayConst(&vc, v);
     VC_END("VariantComparer::visit(JsonArrayConst)", g_snap_arr.data_ == v.data_ && g_snap_arr.resources_ == v.resources_) }
@@ -505,10 +505,10 @@ void h_compare_fn(void) {
     CHECK(r == g_acc_result, "compare<JsonString>: the visitor's result unchanged"); }
   { struct JsonVariantConst lhs = pick_variant(); char *rhs = in_bool() ? (char *)&g_vd[1] : (char *)0;
     g_acc_result = pick_result(); g_acc_calls = 0;
-    unsigned r = compare_char_p(lhs, &rhs);
+    unsigned r = compare_constchar_p(lhs, &rhs);
     CHECK(g_acc_calls == 1 && same_variant(g_acc_variant, lhs) && g_snap_cstr == rhs, "compare<const char*>: comparer carries rhs");
     CHECK(r == g_acc_result, "compare<const char*>: the visitor's result unchanged"); }
-  { struct JsonVariantConst lhs = pick_variant(); struct SerializedValue_char_p rhs; rhs.data_ = (char *)&g_vd[1]; rhs.size_ = in_size();
+  { struct JsonVariantConst lhs = pick_variant(); struct SerializedValue_constchar_p rhs; rhs.data_ = (char *)&g_vd[1]; rhs.size_ = in_size();
     g_acc_result = pick_result(); g_acc_calls = 0;
     unsigned r = compare_SerializedValue_constchar_p(lhs, &rhs);
     CHECK(g_acc_calls == 1 && same_variant(g_acc_variant, lhs) && g_snap_raw.data_ == rhs.data_ && g_snap_raw.size_ == rhs.size_, "compare<SerializedValue>: comparer carries rhs");
@@ -663,19 +663,19 @@ void h_string_comparers(void) {
   CHECK(Comparer_JsonString_void__visit__void_p(&cb, (void *)0) == DIFFER, "non-null JsonString vs null variant: DIFFER");
   /* serialized("...") on the user side is compared as a sized string */
   struct Comparer_SerializedValue_constchar_p_void cs;
-  struct SerializedValue_char_p sv; sv.data_ = b.p; sv.size_ = b.n;
-  Comparer_SerializedValue_constchar_p_void__ctor__SerializedValue_char_p(&cs, sv);
+  struct SerializedValue_constchar_p sv; sv.data_ = b.p; sv.size_ = b.n;
+  Comparer_SerializedValue_constchar_p_void__ctor__SerializedValue_constchar_p(&cs, sv);
   CHECK(Comparer_SerializedValue_constchar_p_void__visit__JsonString(&cs, as_js(a, la)) == r_ab, "Comparer<SerializedValue>: same result as the JsonString with the same bytes");
   CHECK(Comparer_SerializedValue_constchar_p_void__visit__void_p(&cs, (void *)0) == DIFFER, "non-null serialized vs null variant: DIFFER");
   /* const char* on the user side */
-  struct Comparer_char_p_void cz;
-  Comparer_char_p_void__ctor__char_p(&cz, z.p);
+  struct Comparer_constchar_p_void cz;
+  Comparer_constchar_p_void__ctor__char_p(&cz, z.p);
   struct Comparer_JsonString_void czj;
   Comparer_JsonString_void__ctor__JsonString(&czj, as_js(z, lb));
-  unsigned r_az = Comparer_char_p_void__visit__JsonString(&cz, as_js(a, la));
+  unsigned r_az = Comparer_constchar_p_void__visit__JsonString(&cz, as_js(a, la));
   CHECK((r_az == EQUAL) == spec_same(a, z), "Comparer<const char*>: EQUAL iff same length and bytes");
   CHECK(r_az == Comparer_JsonString_void__visit__JsonString(&czj, as_js(a, la)), "C14: const char* and JsonString with the same bytes compare alike");
-  CHECK(Comparer_char_p_void__visit__void_p(&cz, (void *)0) == DIFFER, "non-null const char* vs null variant: DIFFER");
+  CHECK(Comparer_constchar_p_void__visit__void_p(&cz, (void *)0) == DIFFER, "non-null const char* vs null variant: DIFFER");
 }
 
 /* null on the user side ((const char*)0, JsonString(), serialized((char*)0)): equals a null variant and NOTHING else */
@@ -683,21 +683,21 @@ void h_string_comparers_null_rhs(void) {
   struct str a = mkstr(0);
   _Bool la = in_bool();
   COVER(a.n == 0); COVER(a.n == SMAX);
-  struct Comparer_char_p_void cz;
-  Comparer_char_p_void__ctor__char_p(&cz, (char *)0);
+  struct Comparer_constchar_p_void cz;
+  Comparer_constchar_p_void__ctor__char_p(&cz, (char *)0);
   struct Comparer_JsonString_void cj;
   struct JsonString nulljs; nulljs.data_ = (char *)0; nulljs.size_ = 0; nulljs.ownership_ = 1u;
   Comparer_JsonString_void__ctor__JsonString(&cj, nulljs);
   struct Comparer_SerializedValue_constchar_p_void cs;
-  struct SerializedValue_char_p sv; sv.data_ = (char *)0; sv.size_ = 0;
-  Comparer_SerializedValue_constchar_p_void__ctor__SerializedValue_char_p(&cs, sv);
-  CHECK(Comparer_char_p_void__visit__void_p(&cz, (void *)0) == EQUAL, "null const char* vs null variant: EQUAL");
+  struct SerializedValue_constchar_p sv; sv.data_ = (char *)0; sv.size_ = 0;
+  Comparer_SerializedValue_constchar_p_void__ctor__SerializedValue_constchar_p(&cs, sv);
+  CHECK(Comparer_constchar_p_void__visit__void_p(&cz, (void *)0) == EQUAL, "null const char* vs null variant: EQUAL");
   CHECK(Comparer_JsonString_void__visit__void_p(&cj, (void *)0) == EQUAL, "null JsonString vs null variant: EQUAL");
   CHECK(Comparer_SerializedValue_constchar_p_void__visit__void_p(&cs, (void *)0) == EQUAL, "null serialized vs null variant: EQUAL");
 #ifdef CANARY_STRNULL
-  CHECK(Comparer_char_p_void__visit__JsonString(&cz, as_js(a, la)) == EQUAL, "null const char* vs string variant: not EQUAL (null equals only null)");
+  CHECK(Comparer_constchar_p_void__visit__JsonString(&cz, as_js(a, la)) == EQUAL, "null const char* vs string variant: not EQUAL (null equals only null)");
 #else
-  CHECK(Comparer_char_p_void__visit__JsonString(&cz, as_js(a, la)) != EQUAL, "null const char* vs string variant: not EQUAL (null equals only null)");
+  CHECK(Comparer_constchar_p_void__visit__JsonString(&cz, as_js(a, la)) != EQUAL, "null const char* vs string variant: not EQUAL (null equals only null)");
 #endif
   CHECK(Comparer_JsonString_void__visit__JsonString(&cj, as_js(a, la)) != EQUAL, "null JsonString vs string variant: not EQUAL (null equals only null)");
   CHECK(Comparer_SerializedValue_constchar_p_void__visit__JsonString(&cs, as_js(a, la)) != EQUAL, "null serialized vs string variant: not EQUAL (null equals only null)");
@@ -711,10 +711,10 @@ void h_raw_comparer(void) {
   struct str a = mkstr(0), b = mkstr(0);
   _Bool same = spec_same(a, b);
   COVER(same && a.n == SMAX); COVER(!same && a.n == b.n); COVER(a.n != b.n);
-  struct SerializedValue_char_p ra, rb; ra.data_ = a.p; ra.size_ = a.n; rb.data_ = b.p; rb.size_ = b.n;
+  struct SerializedValue_constchar_p ra, rb; ra.data_ = a.p; ra.size_ = a.n; rb.data_ = b.p; rb.size_ = b.n;
   struct RawComparer cb, ca;
-  RawComparer__ctor__SerializedValue_char_p(&cb, rb);
-  RawComparer__ctor__SerializedValue_char_p(&ca, ra);
+  RawComparer__ctor__SerializedValue_constchar_p(&cb, rb);
+  RawComparer__ctor__SerializedValue_constchar_p(&ca, ra);
   unsigned r_ab = RawComparer__visit(&cb, ra), r_ba = RawComparer__visit(&ca, rb);
 #ifdef CANARY_RAW
   CHECK((r_ab == EQUAL) == (same && a.n != 1), "RawComparer: EQUAL iff same length and same bytes");
@@ -851,7 +851,7 @@ void h_laws_spec(void) {
 /* the pointer forms: variant (op) T* and T* (op) variant, instantiated with T = const char (tu/compare.cpp) */
 static char *g_cmp_ptr;
 #ifndef VERIF_NATIVE
-unsigned int compare_char_p(struct JsonVariantConst lhs, char **rhs) { g_cmp_calls++; g_cmp_lhs = lhs; g_cmp_ptr = *rhs; return g_cmp_result; }
+unsigned int compare_constchar_p(struct JsonVariantConst lhs, char **rhs) { g_cmp_calls++; g_cmp_lhs = lhs; g_cmp_ptr = *rhs; return g_cmp_result; }
 #endif
 void h_ops_pointer(void) {
   struct JsonVariantConst v; v.data_ = &g_ovd[0]; v.resources_ = &g_orm[0];
@@ -859,12 +859,12 @@ void h_ops_pointer(void) {
   unsigned c = g_cmp_result = ops_pick_result();
   COVER(c == LESS); COVER(c == GREATER); COVER(c == EQUAL); COVER(c == DIFFER);
   g_cmp_calls = 0;
-  _Bool eq_vs = op_eq_char__JsonVariantConst_char_p(v, s), ne_vs = op_ne_char__JsonVariantConst_char_p(v, s);
-  _Bool lt_vs = op_lt_char__JsonVariantConst_char_p(v, s), le_vs = op_le_char__JsonVariantConst_char_p(v, s);
-  _Bool gt_vs = op_gt_char__JsonVariantConst_char_p(v, s), ge_vs = op_ge_char__JsonVariantConst_char_p(v, s);
-  _Bool eq_sv = op_eq_char__char_p_JsonVariantConst(s, v), ne_sv = op_ne_char__char_p_JsonVariantConst(s, v);
-  _Bool lt_sv = op_lt_char__char_p_JsonVariantConst(s, v), le_sv = op_le_char__char_p_JsonVariantConst(s, v);
-  _Bool gt_sv = op_gt_char__char_p_JsonVariantConst(s, v), ge_sv = op_ge_char__char_p_JsonVariantConst(s, v);
+  _Bool eq_vs = op_eq_constchar__JsonVariantConst_char_p(v, s), ne_vs = op_ne_constchar__JsonVariantConst_char_p(v, s);
+  _Bool lt_vs = op_lt_constchar__JsonVariantConst_char_p(v, s), le_vs = op_le_constchar__JsonVariantConst_char_p(v, s);
+  _Bool gt_vs = op_gt_constchar__JsonVariantConst_char_p(v, s), ge_vs = op_ge_constchar__JsonVariantConst_char_p(v, s);
+  _Bool eq_sv = op_eq_constchar__char_p_JsonVariantConst(s, v), ne_sv = op_ne_constchar__char_p_JsonVariantConst(s, v);
+  _Bool lt_sv = op_lt_constchar__char_p_JsonVariantConst(s, v), le_sv = op_le_constchar__char_p_JsonVariantConst(s, v);
+  _Bool gt_sv = op_gt_constchar__char_p_JsonVariantConst(s, v), ge_sv = op_ge_constchar__char_p_JsonVariantConst(s, v);
   CHECK(g_cmp_calls == 12 && ops_same_variant(g_cmp_lhs, v) && g_cmp_ptr == s, "every operator makes one compare(variant, pointer) call");
   CHECK(eq_vs == spec_eq(c), "v == p iff compare(v,p) is EQUAL");
   CHECK(ne_vs == spec_ne(c), "v != p iff compare(v,p) is not EQUAL");
